@@ -136,4 +136,20 @@ CHECKS = {
           {'pkg': 'c05', 'run': 'TestHandlerConformanceNet', 'checks': {'quick': 3000, 'thorough': 96000}, 'shards': {'quick': 4, 'thorough': 16}},
           {'pkg': 'c05', 'run': 'TestClientConformance', 'checks': {'quick': 6000, 'thorough': 240000}, 'shards': {'quick': 4, 'thorough': 16}},
           {'pkg': 'c05', 'run': 'TestClientConformanceNet', 'checks': {'quick': 3000, 'thorough': 96000}, 'shards': {'quick': 4, 'thorough': 16}}]},
+    'C14': {'level': 'fault_enumeration',
+ 'assumptions': ['client programs respect the stated discipline (request side started first; finish by CloseRequest then CloseResponse, or by cancelling); '
+                 'handler programs block only on client input or virtual sleeps',
+                 'orderings of runnable goroutines between yield points are left to the Go scheduler; delays reorder only around the instrumented points '
+                 '(build tag verif) and the harness-owned boundaries'],
+ 'jobs': [{'pkg': 'c14', 'run': 'TestPrograms', 'checks': {'quick': 2400, 'thorough': 96000}, 'shards': {'quick': 8, 'thorough': 16}},
+          {'pkg': 'c14', 'run': 'TestDelayEnumeration', 'timeout': {'quick': 300, 'thorough': 1800}}]},
+    'C15': {'level': 'exploration',
+ 'assumptions': ['the handler is still running at the instant (it blocks on the request stream or on its context), as the property requires; a Receive that '
+                 'reports a clean end of stream means the handler had finished and voids the precondition',
+                 "over HTTP/1.1 the handler-context clause is only exercised where net/http's server can notice a vanished client"],
+ 'jobs': [{'pkg': 'c15',
+           'run': 'TestInstants',
+           'checks': {'quick': 2400, 'thorough': 96000},
+           'shards': {'quick': 8, 'thorough': 16},
+           'timeout': {'quick': 600, 'thorough': 3600}}]},
 }
